@@ -119,6 +119,16 @@ pub fn badcalls(w: &mut World, r: usize, rng: &mut Rng) {
         rec.call("get_cursor", "invalid", a.clone(), |d| r_unit(d.get_cursor(id, 0, None), |_| false));
         rec.call("hydrate", "invalid", a.clone(), |d| r_unit(ReadDoc::hydrate(d, id, None), |_| false));
         rec.call("hash_for_opid", "invalid", a.clone(), |d| ("ok".into(), d.hash_for_opid(id).is_none()));
+        rec.call("parents_at", "invalid", a.clone(), |d| r_unit(d.parents_at(id, &d.get_heads()).map(|p| p.count()), |n| *n == 0));
+        rec.call("values_at", "invalid", a.clone(), |d| ("ok".into(), d.values_at(id, &d.get_heads()).count() == 0));
+        rec.call("get_all_at", "invalid", a.clone(), |d| r_unit(d.get_all_at(id, "k", &d.get_heads()), |v| v.is_empty()));
+        rec.call("map_range_at", "invalid", a.clone(), |d| ("ok".into(), d.map_range_at(id, .., &d.get_heads()).count() == 0));
+        rec.edit("update_object", "invalid", a.clone(), |t| {
+            let v = automerge::hydrate::Value::Map(automerge::hydrate::Map::default());
+            match t.update_object(id, &v) { Ok(()) => ("ok".into(), false), Err(_) => ("err".into(), false) }
+        });
+        rec.edit("update_spans", "invalid", a.clone(), |t| r_unit(t.update_spans(id, automerge::marks::UpdateSpansConfig::default(), vec![automerge::iter::Span::Text { text: "x".into(), marks: None }]), |_| false));
+        rec.edit("batch_create_object", "invalid", a.clone(), |t| r_unit(t.batch_create_object(id, "k", &automerge::hydrate::Value::Map(automerge::hydrate::Map::default()), false), |_| false));
         rec.edit("put", "invalid", a.clone(), |t| r_unit(t.put(id, "k", 1i64), |_| false));
         rec.edit("put_object", "invalid", a.clone(), |t| r_unit(t.put_object(id, "k", ObjType::Map), |_| false));
         rec.edit("insert", "invalid", a.clone(), |t| r_unit(t.insert(id, 0, 1i64), |_| false));
@@ -152,6 +162,12 @@ pub fn badcalls(w: &mut World, r: usize, rng: &mut Rng) {
         rec.edit("mark_on_list", "invalid", json!({}), |t| r_unit(t.mark(l, Mark::new("b".into(), true, 0, 1), ExpandMark::Both), |_| false));
         rec.edit("splice_text_on_list", "invalid", json!({}), |t| r_unit(t.splice_text(l, 0, 0, "x"), |_| false));
         rec.edit("update_text_on_list", "invalid", json!({}), |t| r_unit(t.update_text(l, "abc"), |_| false));
+        rec.edit("update_spans_on_list", "invalid", json!({}), |t| r_unit(t.update_spans(l, automerge::marks::UpdateSpansConfig::default(), vec![automerge::iter::Span::Text { text: "x".into(), marks: None }]), |_| false));
+        rec.edit("update_object_map_on_list", "invalid", json!({}), |t| {
+            let v = automerge::hydrate::Value::Map(automerge::hydrate::Map::default());
+            match t.update_object(l, &v) { Ok(()) => ("ok".into(), false), Err(_) => ("err".into(), false) }
+        });
+        rec.edit("batch_create_key_on_list", "invalid", json!({}), |t| r_unit(t.batch_create_object(l, "k", &automerge::hydrate::Value::Map(automerge::hydrate::Map::default()), false), |_| false));
         rec.edit("split_block_on_list", "invalid", json!({}), |t| r_unit(t.split_block(l, 0), |_| false));
     }
     if let Some(m) = &map {
@@ -188,6 +204,10 @@ pub fn badcalls(w: &mut World, r: usize, rng: &mut Rng) {
                 });
                 rec.edit("put_object_idx", inv, a.clone(), |t| r_unit(t.put_object(o, i, ObjType::Map), |_| false));
                 rec.edit("insert_object_idx", inv, a.clone(), |t| r_unit(t.insert_object(o, i, ObjType::List), |_| false));
+                if kind == "list" {
+                    rec.edit("batch_create_idx", inv, a.clone(), |t| r_unit(t.batch_create_object(o, i, &automerge::hydrate::Value::Map(automerge::hydrate::Map::default()), true), |_| false));
+                    rec.edit("splice_nested_idx", inv, a.clone(), |t| r_unit(t.splice(o, i, 0, vec![automerge::hydrate::Value::Map(automerge::hydrate::Map::default())]), |_| false));
+                }
                 if kind == "text" {
                     rec.edit("split_block_idx", inv, a.clone(), |t| r_unit(t.split_block(o, i), |_| false));
                     rec.edit("join_block_idx", inv, a.clone(), |t| r_unit(t.join_block(o, i), |_| false));
